@@ -17,8 +17,10 @@ RULE = (
     "E2 deviation-bounded exploration of environment deviations around a run A: before A and at EVERY evaluator call of A a "
     "choice point offers {nothing (default), np.random.seed(0), np.random.seed(12345), draw from the global NumPy generator, "
     "run a complete other optimization B right there with fresh plug-in manager/context, run B sharing A's plug-in manager "
-    "and optimizer context}; ALL executions with <=1 deviation (quick) / <=2 (thorough) run to completion; plus A executed "
-    "twice on one manager/context. Configurations of A: every built-in sampler method x shared on/off, two samplers, "
+    "and optimizer context, the same two with a B that uses A's sampler methods with explicit options}; ALL executions with "
+    "<=1 deviation (quick) / <=2 (thorough) run to completion; plus A executed again on the same manager/context: in a new "
+    "plan, on the SAME step object with the configuration dict, and twice on the same step with the same validated "
+    "EnOptConfig object. Configurations of A: every built-in sampler method x shared on/off, two samplers, "
     "filter, stddev estimator, mask; slsqp, nelder-mead, differential_evolution with an explicit seed option. Oracle: the "
     "full trace of A (evaluator request arrays, labels, active flags, returned values, all arrays of every delivered "
     "result, exit code) is BYTE-IDENTICAL to the solo run of A. Separately: changing only gradient.seed changes the "
@@ -101,7 +103,7 @@ class Env:
     def deviate(self, label: str) -> None:
         if self.chooser is None or self.in_b:
             return
-        choice = self.chooser.choose(6, label)
+        choice = self.chooser.choose(8, label)
         if choice == 1:
             np.random.seed(0)
         elif choice == 2:
@@ -109,10 +111,10 @@ class Env:
         elif choice == 3:
             np.random.random(7)
             np.random.standard_normal(3)
-        elif choice in (4, 5):
+        elif choice in (4, 5, 6, 7):
             self.in_b = True
             try:
-                run_b(self, shared=choice == 5)
+                run_b(self, shared=choice in (5, 7), explicit_options=choice in (6, 7))
             finally:
                 self.in_b = False
 
@@ -151,10 +153,25 @@ def result_bytes(res: Any) -> list[Any]:
     return out
 
 
-def run_b(env: Env, shared: bool) -> None:
+def run_b(env: Env, shared: bool, explicit_options: bool = False) -> None:
     """A complete other optimization (different method, sampler and seed)."""
     from ropt.plan import OptimizerContext, Plan
 
+    if explicit_options:
+        # the same sampler methods as A may use, but with explicit (non-default) options
+        config_b: dict[str, Any] = {
+            "variables": {"initial_values": [0.1, 0.2, 0.3]},
+            "realizations": {"weights": [1.0, 1.0, 1.0]},
+            "gradient": {"number_of_perturbations": 3, "seed": 17, "perturbation_magnitudes": 0.1, "samplers": [0, 1, 2]},
+            "samplers": [{"method": "uniform", "options": {"loc": -0.25, "scale": 0.5}},
+                         {"method": "truncnorm", "options": {"a": -3.0, "b": 3.0}},
+                         {"method": "norm", "options": {"scale": 2.0}}],
+            "optimizer": {"method": "slsqp", "options": {"maxiter": 1}},
+        }
+        context = env.context if shared else OptimizerContext(evaluator=env, plugin_manager=make_manager()[0])
+        plan_b = Plan(context)
+        plan_b.run_step(plan_b.add_step("optimizer"), config=config_b)
+        return
     config = {
         "variables": {"initial_values": [0.1, 0.2, 0.3]},
         "realizations": {"weights": [1.0, 1.0, 1.0]},
@@ -198,15 +215,26 @@ def run_a(cfg: dict[str, Any], seed: int, chooser: Chooser | None, *, twice: boo
         code = plan.run_step(step, config=config)
         env.trace.append(("exit", code.name))
         if twice:
+            from ropt.config.enopt import EnOptConfig
+
             first = list(env.trace)
-            env.trace.clear()
-            env.n_calls = 0
-            plan2 = Plan(context)
-            step2 = plan2.add_step("optimizer")
-            source_box["step"] = step2
-            code2 = plan2.run_step(step2, config=config)
-            env.trace.append(("exit", code2.name))
             out["first"] = first
+            out["again"] = {}
+            validated = EnOptConfig.model_validate(config)
+            for mode in ("new-plan-dict", "same-step-dict", "same-step-object", "same-step-object"):
+                env.trace.clear()
+                env.n_calls = 0
+                if mode == "new-plan-dict":
+                    plan2 = Plan(context)
+                    step2 = plan2.add_step("optimizer")
+                    source_box["step"] = step2
+                    code2 = plan2.run_step(step2, config=config)
+                else:
+                    source_box["step"] = step
+                    code2 = plan.run_step(step, config=config if mode == "same-step-dict" else validated)
+                env.trace.append(("exit", code2.name))
+                key = mode if mode not in out["again"] else mode + ":repeat"
+                out["again"][key] = list(env.trace)
     except Exception as exc:  # noqa: BLE001
         out["error"] = f"{type(exc).__name__}:{str(exc)[:150]}"
     out["trace"] = list(env.trace)
@@ -243,7 +271,8 @@ def judge(case: dict[str, Any], run: dict[str, Any] | None = None) -> Judgement:
         if run is None:
             run = run_a(cfg, seed, Chooser(prefix=list(case["choices"])))
         kinds = sorted({c for c in case["choices"] if c})
-        names = {1: "seed0", 2: "seed12345", 3: "global-draw", 4: "other-run-fresh", 5: "other-run-shared"}
+        names = {1: "seed0", 2: "seed12345", 3: "global-draw", 4: "other-run-fresh", 5: "other-run-shared",
+                 6: "other-run-explicit-options-fresh", 7: "other-run-explicit-options-shared"}
         label = "+".join(names[k] for k in kinds) or "none"
         j.outcome = f"{cfg['name']}:{label}"
         j.transitions = len(run["trace"])
@@ -257,8 +286,12 @@ def judge(case: dict[str, Any], run: dict[str, Any] | None = None) -> Judgement:
         j.transitions = len(run["trace"])
         if run["error"] is not None:
             j.fail("second-run-raised", error=run["error"], config=cfg["name"])
-        elif run["first"] != reference["trace"] or run["trace"] != reference["trace"]:
-            j.fail("second-run-on-same-manager-differs", config=cfg["name"], where=first_diff(reference["trace"], run["trace"]))
+        elif run["first"] != reference["trace"]:
+            j.fail("first-run-differs-from-solo", config=cfg["name"])
+        else:
+            for mode, trace in run["again"].items():
+                if trace != reference["trace"]:
+                    j.fail(f"rerun-differs:{mode}", config=cfg["name"], where=first_diff(reference["trace"], trace))
     else:  # seed sensitivity
         other = solo(case["cfg"], seed + 1)
         j.outcome = f"{cfg['name']}:seed-change"
